@@ -104,6 +104,7 @@ def jobs(tier):
     B(lambda: BusSyncInst("BusSynchronizer(32,t=11)/R<=1", 32, 11, ratio_max=1), cycles=20000)
     B(lambda: BusSyncInst("BusSynchronizer(64,t=128)/R<=3", 64, 128, ratio_max=3), cycles=12000)
     B(lambda: BusSyncInst("BusSynchronizer(3,t=15)/R<=2", 3, 15, ratio_max=2), cycles=12000)
+    B(lambda: BusSyncInst("BusSynchronizer(2,t=19)/R<=3", 2, 19, ratio_max=3), cycles=12000)
     # free-running clocks with a fixed phase offset, output clock faster than the input clock
     B(lambda: BusSyncInst("BusSynchronizer(8,t=128)/i:o=30:10 phase 1", 8, 128, pattern=(30, 10, 1)), cycles=12000)
     B(lambda: BusSyncInst("BusSynchronizer(4,t=19)/i:o=14:10 phase 2", 4, 19, pattern=(14, 10, 2)), cycles=12000)
